@@ -742,8 +742,12 @@ func checkReferenceAnswers(r *runner, views map[string]*LedgerView) []Violation 
 			switch {
 			case code == "CONFLICT" && !takenByReturn:
 				vs = append(vs, Violation{prop, "conflict-only-when-the-ledger-holds-the-reference", fmt.Sprintf("%s on %s with reference %q was answered a reference conflict, but no committed transaction of that ledger carried it when the answer was given", op.ID, op.Ledger, op.Reference)})
-			case code != "CONFLICT" && takenBefore && len(e.owner.Faults) == 0 && r.organicVictim(e.owner.Op.ID) == 0:
-				vs = append(vs, Violation{prop, "reused-reference-answers-a-conflict", fmt.Sprintf("%s on %s reuses reference %q, committed before the request was sent, and was answered %q instead of a reference conflict", op.ID, op.Ledger, op.Reference, code)})
+			case code != "CONFLICT" && takenByReturn && onlyDeadlockFaults(e.owner.Faults) && !r.gaveUpOnDeadlock(e.owner.Op.ID):
+				when := "while the request was running"
+				if takenBefore {
+					when = "before the request was sent"
+				}
+				vs = append(vs, Violation{prop, "reused-reference-answers-a-conflict", fmt.Sprintf("%s on %s reuses reference %q, committed by another write %s, and was answered %q instead of a reference conflict (it draws from world: only its reference can refuse it)", op.ID, op.Ledger, op.Reference, when, code)})
 			case code != "CONFLICT":
 				// refused for another reason (a deadlock victim that gave up, an injected fault)
 				t.unsure++
@@ -811,12 +815,19 @@ func checkIDsAtCommit(r *runner, rec CommitRec, before map[rowKey]any) []Violati
 		if lr, ok := r.state[rowKey{"ledger", "", l}].(*LedgerRow); ok {
 			feats = lr.Features
 		}
+		// the known shapes are about CONCURRENT writers; two commits of one request are sequential
+		sameRequest := func(table string, maxID uint64) bool {
+			return r.committedBy[rowKey{table, l, idKey(maxID)}] == opIDOf(rec.Task)
+		}
 		for _, id := range a.tx {
 			if id < maxTx {
 				tag := "[the two writers share a volume row]"
 				nt, _ := r.state[rowKey{"tx", l, idKey(id)}].(*ledger.Transaction)
 				if nt != nil && maxTxRow != nil && !sharePair(nt, maxTxRow) {
 					tag = "[no account/asset in common: nothing orders the two writers before the log lock]"
+				}
+				if sameRequest("tx", maxTx) {
+					tag = "[both committed by the same request, one after the other]"
 				}
 				vs = append(vs, Violation{prop, "ids-increase-in-commit-order", fmt.Sprintf("commit %d: ledger %s: transaction %d is committed after transaction %d %s", rec.Seq, l, id, maxTx, tag)})
 			}
@@ -826,6 +837,9 @@ func checkIDsAtCommit(r *runner, rec CommitRec, before map[rowKey]any) []Violati
 				tag := "[HASH_LOGS=SYNC: the log lock must order them]"
 				if feats["HASH_LOGS"] != "SYNC" {
 					tag = "[HASH_LOGS=" + feats["HASH_LOGS"] + ": no log lock is taken]"
+				}
+				if sameRequest("log", maxLog) {
+					tag = "[both committed by the same request, one after the other]"
 				}
 				vs = append(vs, Violation{prop, "ids-increase-in-commit-order", fmt.Sprintf("commit %d: ledger %s: log %d is committed after log %d %s", rec.Seq, l, id, maxLog, tag)})
 			}
